@@ -208,7 +208,13 @@ class BackendProvider(ABC):
 
         Returns integer result if the result is a whole number.
         """
-        r = np.power(float(a) if isinstance(a, (int, np.integer)) else a, b)
+        if isinstance(a, (int, np.integer)):
+            a = float(a)
+        elif isinstance(a, np.ndarray) and a.dtype.kind in 'iub':
+            # same as for an integer atom: numpy refuses integer arrays to
+            # negative integer powers, and Power makes whole results integers again
+            a = a.astype(float)
+        r = np.power(a, b)
         return r
 
     def has_gradient(self, x) -> bool:
